@@ -101,6 +101,8 @@ def run_case(case):
                     pass                    # the original exception is re-raised by the caller anyway
 
         running = {}            # leaf id -> gate (currently inside leaf)
+        cleaning = {}           # leaf id -> gate (cancelled, inside its clean-up)
+        at_return = {}
         started = []
         finished = {}           # leaf id -> 'ok' | 'err' | 'cancelled'
         max_running = [0]
@@ -125,10 +127,19 @@ def run_case(case):
             try:
                 r = await g
             except asyncio.CancelledError:
+                # cancellation takes time: the leaf's clean-up waits for the harness, so "cancel and wait" is observable
+                del running[i]
+                cg = Gate(loop)
+                cleaning[i] = cg
+                try:
+                    await cg
+                except asyncio.CancelledError:
+                    pass                      # cancelled again during clean-up: finish at once
+                finally:
+                    del cleaning[i]
                 finished[i] = 'cancelled'
                 raise
-            finally:
-                del running[i]
+            del running[i]
             if r == 'err':
                 finished[i] = 'err'
                 failed_order.append(i)
@@ -140,7 +151,10 @@ def run_case(case):
         online = {}
 
         async def outer():
-            return await holding(outer_body)
+            try:
+                return await holding(outer_body)
+            finally:
+                at_return['busy'] = sorted(set(running) | set(cleaning))
 
         async def outer_body():
             if True:
@@ -201,6 +215,11 @@ def run_case(case):
                         nontrivial = True
                         classes.add('failure_with_running_and_queued')
                 running[i].open(kind)
+            elif kind == 'clean':
+                cs = sorted(cleaning)
+                if not cs:
+                    continue
+                cleaning[cs[step[1] % len(cs)]].open()
             elif kind == 'cancel_outer':
                 cancelled_outer = True
                 flags['cancel'] = True
@@ -220,10 +239,12 @@ def run_case(case):
                 break
         # finish: complete everything still running with ok until quiescent
         for _ in range(1000):
-            if not running:
+            if not running and not cleaning:
                 break
             for i in sorted(running):
                 running[i].open('ok')
+            for i in sorted(cleaning):
+                cleaning[i].open()
             loop.settle()
         if not outer_task.done():
             fails.append(('outer-hangs', 'the helper returns once all its tasks have finished',
@@ -297,6 +318,9 @@ def run_case(case):
                     #  cancelled with the rest, so only the no-failure direction is checked)
                     fails.append(('late-call', 'call() is refused only after a failure shut the pool down',
                                   f'late call {online["late"]} although no task had failed'))
+            if not cancelled_outer and at_return.get('busy') and not (shape == 'raise' and exc is not None):
+                fails.append(('returned-with-running-task', 'cancels the remaining work when asked to and leaves no task running after it returns',
+                              f'helper handed control back while leaves {at_return["busy"]} were still running / cleaning up'))
             # no task left running (all modes once every gate has been completed and the loop drained)
             left = [t for t in asyncio.all_tasks(loop) if not t.done()]
             if left:
@@ -316,10 +340,12 @@ def run_case(case):
             t2 = loop.create_task(outer2())
             loop.settle()
             for _ in range(1000):
-                if not running:
+                if not running and not cleaning:
                     break
                 for i in sorted(running):
                     running[i].open('ok')
+                for i in sorted(cleaning):
+                    cleaning[i].open()
                 loop.settle()
             if not t2.done():
                 fails.append(('outer-hangs-after', 'a later gather on the same semaphore still completes',
@@ -352,10 +378,10 @@ def run_shard(spec, seed, tier):
     from hypothesis import strategies as st
     from vlib.hyp import search
     res = Result()
-    step = st.one_of(st.tuples(st.sampled_from(['ok', 'ok', 'err']), st.integers(0, 5)).map(list),
+    step = st.one_of(st.tuples(st.sampled_from(['ok', 'ok', 'err', 'clean']), st.integers(0, 5)).map(list),
                      st.tuples(st.just('cancel_leaf'), st.integers(0, 5)).map(list),
                      st.just(['cancel_outer']))
-    stepnc = st.one_of(st.tuples(st.sampled_from(['ok', 'ok', 'err']), st.integers(0, 5)).map(list),
+    stepnc = st.one_of(st.tuples(st.sampled_from(['ok', 'ok', 'err', 'clean']), st.integers(0, 5)).map(list),
                        st.tuples(st.just('cancel_leaf'), st.integers(0, 5)).map(list))
 
     @st.composite
